@@ -171,44 +171,30 @@ func stubEval(ex *Exec, st *State, fr *Frame, args []Value, in ssa.Instruction) 
 		}
 		return &TupleV{[]Value{mk(concStr(tv.Value.String())), &IfaceV{}}}, nil
 	}
-	// rope: (sign literal)* numeral  — Go's lexer reads "--" / "++" as one
-	// token (syntax error), so adjacency matters
+	// rope with symbolic numerals: the expression model
 	ps := a.P
-	if len(ps) >= 1 && ps[len(ps)-1].Dec != nil {
-		num := ps[len(ps)-1]
-		signs := ""
-		okShape := true
-		for _, q := range ps[:len(ps)-1] {
-			if !q.isLit() {
-				okShape = false
-			}
-			signs += q.Lit
-		}
-		for _, c := range signs {
-			if c != '+' && c != '-' {
-				okShape = false
-			}
-		}
-		if okShape {
-			if strings.Contains(signs, "--") || strings.Contains(signs, "++") {
-				return &TupleV{[]Value{ex.zero(tvType), ex.newErr(concStr("<eval error>"))}}, nil
-			}
-			val := num.Dec
-			// the numeral itself may be negative when signed: "-" + "-5" = "--5"
-			if num.Signed {
-				neg := ex.st.SLt(val, ex.st.BV(0, 64))
-				if strings.HasSuffix(signs, "-") && ex.feasible(st, neg) {
-					panic(unsupported("Eval: sign followed by a possibly negative numeral"))
-				}
-			}
-			negs := strings.Count(signs, "-")
-			if negs%2 == 1 {
-				val = ex.st.Neg(val)
-			}
-			return &TupleV{[]Value{mk(ex.normStr([]StrAlt{{P: []Piece{{Dec: val, Signed: true}}}})), &IfaceV{}}}, nil
-		}
+	val, divZero, synErr, why := ex.evalRope(st, ps)
+	if why != "" {
+		panic(unsupported("types.Eval: " + why))
 	}
-	panic(unsupported("types.Eval on rope " + piecesString(ps)))
+	if synErr {
+		return &TupleV{[]Value{ex.zero(tvType), ex.newErr(concStr("<eval error>"))}}, nil
+	}
+	okv := mk(ex.normStr([]StrAlt{{P: []Piece{{Dec: val, Signed: true}}}}))
+	if divZero.IsFalse() {
+		return &TupleV{[]Value{okv, &IfaceV{}}}, nil
+	}
+	dst := in.(ssa.Value)
+	return nil, ex.splitConds(st, fr, in, []*smt.Term{divZero}, func(ch *State, i int) {
+		cf := ch.top()
+		if i == 0 {
+			cf.Env[dst] = &TupleV{[]Value{ex.zero(tvType), ex.newErr(concStr("<division by zero>"))}}
+		} else {
+			cf.Env[dst] = &TupleV{[]Value{okv, &IfaceV{}}}
+		}
+		cf.IP++
+	})
 }
 
 var _ = fmt.Sprintf
+var _ = strings.Contains
